@@ -246,3 +246,83 @@ def c11(tier, seed, replay):
                    "storage read API (whose agreement with the abstract graph is C06)",
                    "seeded random graphs (plain, parallel relationships, self loops, compacted, layered over a segment) x "
                    "seeded random well-scoped queries; rows compared as a bag, or as an order-respecting slice under ORDER BY")
+
+
+# ------------------------------------------------------------------------------------------------
+# C27: ordered index keys
+# ------------------------------------------------------------------------------------------------
+def key_lists(tier, seed):
+    import random
+    import struct
+    rng = random.Random(seed)
+    I64 = [-2**63, -2**63 + 1, -2**53 - 1, -2**53, -2**32, -65536, -256, -255, -2, -1, 0, 1, 2, 127, 128, 255, 256,
+           65535, 65536, 2**31 - 1, 2**31, 2**32, 2**53, 2**53 + 1, 2**62, 2**63 - 2, 2**63 - 1]
+
+    def fbits(x):
+        return "%016x" % struct.unpack(">Q", struct.pack(">d", x))[0]
+    FL = [float("-inf"), -2.0**63, -2.0**53 - 2, -65536.5, -2.0, -1.5, -1.0, -0.5, -2.0**-20, -0.0, 0.0, 2.0**-40, 2.0**-20,
+          0.5, 1.0, 1.5, 2.0, 255.0, 256.0, 65536.5, 2.0**53, 2.0**53 + 2, 2.0**63, float("inf")]
+    STR = ["", "\x00", "\x00\x00", "\x00\x01", "\x01", "\x01\x00", "a", "a\x00", "a\x00b", "ab", "b", "\x7f", "A", "aa",
+           "\x00\x7f", "a\x01"]
+    BLOB = [[], [0], [0, 0], [0, 255], [0, 1], [1], [255], [255, 0], [0, 255, 0], [1, 0], [254], [0, 254], [255, 255]]
+    lists = []
+
+    def mk(ints, floats, strs, blobs, lid):
+        vals = [{"int": str(i)} for i in ints] + [{"float": fbits(f)} for f in floats] + [{"str": s} for s in strs] \
+            + [{"blob": b} for b in blobs] + [True, False, None]
+        lists.append({"id": lid, "vals": vals})
+    mk(I64, FL, STR, BLOB, "boundaries")
+    n = 6 if tier == "quick" else 60
+    for r in range(n):
+        ints = [rng.choice(I64) + rng.randint(-3, 3) for _ in range(12)]
+        ints = [max(-2**63, min(2**63 - 1, i)) for i in ints] + [rng.randint(-2**63, 2**63 - 1) for _ in range(8)]
+        floats = [rng.choice(FL) for _ in range(6)] + [rng.randint(-2**20, 2**20) / 2.0**rng.randint(0, 8) for _ in range(10)] \
+            + [float(rng.randint(-2**40, 2**40)) for _ in range(4)]
+        strs = ["".join(rng.choice("\x00\x01ab\x7f") for _ in range(rng.randint(0, 5))) for _ in range(14)]
+        blobs = [[rng.choice([0, 1, 254, 255]) for _ in range(rng.randint(0, 5))] for _ in range(14)]
+        mk(ints, floats, strs, blobs, "random/%d" % r)
+    return lists
+
+
+@reg("C27")
+def c27(tier, seed, replay):
+    t0 = time.time()
+    vlib.build_harness()
+    cd = cache_dir("keys", tier, seed)
+    os.makedirs(cd, exist_ok=True)
+    m = None
+    if not replay:
+        from checks import model_run
+        m = model_run("OrderedKey", "MC_OrderedKey", tier, "orderedkey", workers=4, timeout=600)
+        neg = model_run("OrderedKey", "MC_OrderedKeyNeg_NoNormalize", tier, "orderedkey-neg", workers=4, timeout=600, must_hold=False)
+        if neg.get("violated") != "OrderPreserved":
+            raise ToolError("OrderedKey sensitivity run: the model without -0.0 normalisation must violate OrderPreserved")
+    lists = [json.load(open(replay))["list"]] if replay else key_lists(tier, seed)
+    ip, tp = os.path.join(cd, "lists.ndjson"), os.path.join(cd, "trace.ndjson")
+    vlib.write_ndjson(ip, lists)
+    stats = vlib.nvx(["keys", "--in", ip, "--out", tp])
+    findings, info = vlib.tlc_trace("OrderedKeyTrace", tp, "keys-" + tier)
+    by_line = {i + 1: l for i, l in enumerate(lists)}
+    selftest = {"ran": False}
+    if not replay:
+        e = json.loads(open(tp).readline())
+        e["enc"][3], e["enc"][4] = e["enc"][4], e["enc"][3]
+        sp = os.path.join(cd, "selftest.ndjson")
+        open(sp, "w").write(json.dumps(e) + "\n")
+        sf, _ = vlib.tlc_trace("OrderedKeyTrace", sp, "keys-selftest")
+        if not sf:
+            raise ToolError("binding self-test failed: swapped encodings accepted")
+        selftest = {"ran": True, "findings_on_corrupted_trace": len(sf)}
+    nv, nk = generic_verdict("C27", findings, lambda f: {"property": "C27", "finding": f, "list": by_line.get(f["at"])})
+    npairs = sum(len(l["vals"]) ** 2 for l in lists)
+    cov = {"traces_validated_against_impl": len(lists), "evaluations": npairs, "distinct_nontrivial": stats.get("values", 0),
+           "rule": "boundary list + seeded lists of 64-bit integers, exactly representable non-NaN floats (both zeros, infinities), "
+                   "strings and blobs with embedded 0x00/0xFF, booleans; every ordered pair of one list is judged; "
+                   "distinct_nontrivial = values encoded",
+           "states": (m or {}).get("states", info.get("distinct", 0)), "transitions": (m or {}).get("transitions", 0),
+           "model": {"cfg": "MC_OrderedKey", "exhaustive": True, "domain": "4-bit integers, 6-bit minifloats without NaN, strings over {0,1,255} up to length 3, booleans: all pairs"},
+           "harness_stats": stats, "binding_selftest": selftest, "samples": [lists[0]["vals"][:12]], "known_findings_seen": nk}
+    vlib.write_evidence("C27", tier, seed, "model_checking", cov, time.time() - t0, nv,
+                        ASSUME_COMMON + ["the encoder is uniform in the width (the exhaustive model run is at reduced width)",
+                                         "floats outside the exactly-decomposable window (|x| >= 2^123 or more than 40 fractional bits) are not generated"])
+    return 1 if nv else 0
